@@ -24,7 +24,38 @@ def self_name(func):
     return p[0] if p else None
 
 
+# Name nodes (by id) that are uses of a local bound exactly once to self.<attr>:  registry = self._e ; registry[name]
+SELF_ATTR_ALIASES = {}
+
+
+def register_self_attr_aliases(func):
+    """Record the locals of ``func`` that are bound exactly once, to ``self.<attr>``, so that is_self_attr() sees through them."""
+    s = self_name(func)
+    if s is None:
+        return
+    bound = {}
+    for n in ast.walk(func):
+        if isinstance(n, ast.Name) and isinstance(n.ctx, (ast.Store, ast.Del)):
+            bound[n.id] = bound.get(n.id, 0) + 1
+    for st in ast.walk(func):
+        if isinstance(st, ast.Assign) and len(st.targets) == 1 and isinstance(st.targets[0], ast.Name) and \
+                isinstance(st.value, ast.Attribute) and isinstance(st.value.value, ast.Name) and st.value.value.id == s and \
+                bound.get(st.targets[0].id) == 1 and st.targets[0].id not in params(func):
+            for n in ast.walk(func):
+                if isinstance(n, ast.Name) and n.id == st.targets[0].id and isinstance(n.ctx, ast.Load):
+                    SELF_ATTR_ALIASES[id(n)] = (s, st.value.attr)
+            SELF_ATTR_ALIASES[id(st.value)] = ('<alias definition>', st.value.attr)
+
+
+def is_alias_definition(node):
+    """``node`` is the self.<attr> on the right of  local = self.<attr>  (a registered alias)."""
+    return SELF_ATTR_ALIASES.get(id(node), (None,))[0] == '<alias definition>'
+
+
 def is_self_attr(node, selfname, attr=None):
+    if isinstance(node, ast.Name) and id(node) in SELF_ATTR_ALIASES:
+        s_, a_ = SELF_ATTR_ALIASES[id(node)]
+        return s_ == selfname and (attr is None or a_ == attr)
     return (isinstance(node, ast.Attribute) and isinstance(node.value, ast.Name)
             and node.value.id == selfname and (attr is None or node.attr == attr))
 
